@@ -41,14 +41,23 @@ Definition rmsg (r : row) : pbval str :=
   | _ => msg_of_row r
   end.
 
-Definition sim_spo : Prop := forall tm i stmt g m, Rt g m -> (0 <= i <= 2) ->
+(* the statement messages a dispatcher is handed: a fresh RdfTriple / RdfQuad / RdfGraphStart whose slots below i have been
+   filled (or left out: a repeated term) by earlier calls *)
+Definition building (i : Z) (stmt : pbval str) : Prop :=
+  exists n ws wp wo, In n ["RdfTriple"; "RdfQuad"; "RdfGraphStart"]%string /\
+    stmt = (if i =? 0 then PMsg n []
+            else if i =? 1 then put_opt 0 ws (PMsg n [])
+            else if i =? 2 then put_opt 1 wp (put_opt 0 ws (PMsg n []))
+            else put_opt 2 wo (put_opt 1 wp (put_opt 0 ws (PMsg n [])))).
+
+Definition sim_spo : Prop := forall tm i stmt g m, Rt g m -> (0 <= i <= 2) -> building i stmt ->
   match enc_spo tm i stmt g, E.encode_spo_term ig tm m with
   | (Val rows, g', stmt'), Ok (m', mrows, w) => rows = map rmsg mrows /\ Rt g' m' /\ stmt' = put i w stmt
   | (Exn _, _, _), Err _ => True
   | _, _ => False
   end.
 
-Definition sim_graph : Prop := forall tm stmt g m, Rt g m ->
+Definition sim_graph : Prop := forall tm stmt g m, Rt g m -> building 3 stmt ->
   match enc_graph tm stmt g, E.encode_graph_term ig tm m with
   | (Val rows, g', stmt'), Ok (m', mrows, w) => rows = map rmsg mrows /\ Rt g' m' /\ stmt' = put 3 w stmt
   | (Exn _, _, _), Err _ => True
@@ -64,7 +73,7 @@ Lemma differs_is (prev : option term) (tm : term) :
 Proof. unfold E.differs. destruct prev as [p|]; reflexivity. Qed.
 
 (* one slot of encode_spo, as the model does it, against the dispatcher *)
-Lemma slot_step (i : Z) (prev : option term) (tm : term) (stmt : pbval str) g m : Rt g m -> (0 <= i <= 2) ->
+Lemma slot_step (i : Z) (prev : option term) (tm : term) (stmt : pbval str) g m : Rt g m -> (0 <= i <= 2) -> building i stmt ->
   match E.encode_slot ig prev tm m with
   | Ok (m', mrows, w, prev') =>
       if E.differs prev tm
@@ -73,9 +82,9 @@ Lemma slot_step (i : Z) (prev : option term) (tm : term) (stmt : pbval str) g m 
   | Err _ => E.differs prev tm = true /\ exists e g' s', enc_spo tm i stmt g = (Exn e, g', s')
   end.
 Proof.
-  intros HR Hi. unfold E.encode_slot.
+  intros HR Hi Hb. unfold E.encode_slot.
   destruct (E.differs prev tm) eqn:Ed.
-  - pose proof (H_spo tm i stmt g m HR Hi) as H.
+  - pose proof (H_spo tm i stmt g m HR Hi Hb) as H.
     destruct (enc_spo tm i stmt g) as [[[rows|e] g'] stmt'];
       destruct (E.encode_spo_term ig tm m) as [[[m' mrows] w]|e']; try contradiction; cbn [bind].
     + destruct H as (-> & HR' & ->). exists g', (map rmsg mrows).
@@ -117,11 +126,13 @@ Proof. unfold E.nth_term. destruct l as [|a [|b [|c [|d l]]]]; cbn; auto. Qed.
 
 Notation gen_spo := (encode_spo SN term_eqb enc_spo).
 
-Ltac use_slot i prev tm stmt g m HR :=
+Ltac bld n a b := exists n, a, b, (@None wterm); split; [assumption | reflexivity].
+
+Ltac use_slot i prev tm stmt g m HR bl :=
   let H := fresh "Hs" in
   let Hc := fresh "Hcall" in
   let Ed := fresh "Ed" in
-  pose proof (slot_step i prev tm stmt g m HR ltac:(lia)) as H;
+  pose proof (slot_step i prev tm stmt g m HR ltac:(lia) ltac:(bl)) as H;
   destruct (E.encode_slot ig prev tm m) as [[[[?m' ?mrows] ?w] ?prev']|?e'];
   [ destruct (E.differs prev tm) eqn:Ed;
     [ destruct H as (?g' & ?rows & Hc & ?Hrows & ?HR' & ?Hprev); cbv beta iota; rewrite Hc; clear Hc; subst
@@ -130,7 +141,8 @@ Ltac use_slot i prev tm stmt g m HR :=
 
 Ltac rows_eq := rewrite ?map_app; cbn [map app]; rewrite ?app_nil_r; rewrite <- ?app_assoc; cbn [app]; reflexivity.
 
-Lemma tie_encode_spo (terms : list term) (rp : E.repeated) (stmt : pbval str) g m : Rt g m ->
+Lemma tie_encode_spo (terms : list term) (rp : E.repeated) (n : string) g m : let stmt := PMsg n [] in
+  In n ["RdfTriple"; "RdfQuad"; "RdfGraphStart"]%string -> Rt g m ->
   match gen_spo terms g (rlist rp) stmt, spo_result terms rp m with
   | (Val rows, terms', g', rl', stmt'), Ok (m', rp', mrows, ws, wp, wo) =>
       rows = map rmsg mrows /\ terms' = skipn 3 terms /\ Rt g' m' /\ rl' = rlist rp' /\
@@ -139,29 +151,29 @@ Lemma tie_encode_spo (terms : list term) (rp : E.repeated) (stmt : pbval str) g 
   | _, _ => False
   end.
 Proof.
-  intros HR. unfold encode_spo, spo_result, rlist.
+  intros stmt Hn HR. unfold encode_spo, spo_result, rlist.
   destruct terms as [|s terms]; [exact I|]. cbn [E.nth_term nth_error bind].
   change (seq_get [E.r_s rp; E.r_p rp; E.r_o rp; E.r_g rp] 0) with (@Val (option term) (E.r_s rp)). cbv beta iota.
   rewrite differs_is.
-  use_slot 0 (E.r_s rp) s stmt g m HR; cbn [bind]; try exact I.
+  use_slot 0 (E.r_s rp) s stmt g m HR ltac:(bld n (@None wterm) (@None wterm)); cbn [bind]; try exact I.
   - (* subject encoded *)
     change (seq_set [E.r_s rp; E.r_p rp; E.r_o rp; E.r_g rp] 0 (Some s)) with (@Val (list (option term)) [Some s; E.r_p rp; E.r_o rp; E.r_g rp]).
     cbv beta iota. destruct terms as [|p terms]; [exact I|]. cbn [E.nth_term nth_error bind].
     change (seq_get [Some s; E.r_p rp; E.r_o rp; E.r_g rp] 1) with (@Val (option term) (E.r_p rp)). cbv beta iota.
     rewrite differs_is.
-    use_slot 1 (E.r_p rp) p (put_opt 0 w stmt) g' m' HR'; cbn [bind]; try exact I.
+    use_slot 1 (E.r_p rp) p (put_opt 0 w stmt) g' m' HR' ltac:(bld n w (@None wterm)); cbn [bind]; try exact I.
     + change (seq_set [Some s; E.r_p rp; E.r_o rp; E.r_g rp] 1 (Some p)) with (@Val (list (option term)) [Some s; Some p; E.r_o rp; E.r_g rp]).
       cbv beta iota. destruct terms as [|o terms]; [exact I|]. cbn [E.nth_term nth_error bind].
       change (seq_get [Some s; Some p; E.r_o rp; E.r_g rp] 2) with (@Val (option term) (E.r_o rp)). cbv beta iota.
       rewrite differs_is.
-      use_slot 2 (E.r_o rp) o (put_opt 1 w0 (put_opt 0 w stmt)) g'0 m'0 HR'0; cbn [bind]; try exact I.
+      use_slot 2 (E.r_o rp) o (put_opt 1 w0 (put_opt 0 w stmt)) g'0 m'0 HR'0 ltac:(bld n w w0); cbn [bind]; try exact I.
       * change (seq_set [Some s; Some p; E.r_o rp; E.r_g rp] 2 (Some o)) with (@Val (list (option term)) [Some s; Some p; Some o; E.r_g rp]).
         cbv iota. split; [rows_eq|]. split; [reflexivity|]. split; [assumption|]. split; reflexivity.
       * split; [rows_eq|]. split; [reflexivity|]. split; [assumption|]. split; reflexivity.
     + destruct terms as [|o terms]; [exact I|]. cbn [E.nth_term nth_error bind].
       change (seq_get [Some s; E.r_p rp; E.r_o rp; E.r_g rp] 2) with (@Val (option term) (E.r_o rp)). cbv beta iota.
       rewrite differs_is.
-      use_slot 2 (E.r_o rp) o (put_opt 0 w stmt) g' m' HR'; cbn [bind]; try exact I.
+      use_slot 2 (E.r_o rp) o (put_opt 0 w stmt) g' m' HR' ltac:(bld n w (@None wterm)); cbn [bind]; try exact I.
       * change (seq_set [Some s; E.r_p rp; E.r_o rp; E.r_g rp] 2 (Some o)) with (@Val (list (option term)) [Some s; E.r_p rp; Some o; E.r_g rp]).
         cbv iota. split; [rows_eq|]. split; [reflexivity|]. split; [assumption|]. split; reflexivity.
       * split; [rows_eq|]. split; [reflexivity|]. split; [assumption|]. split; reflexivity.
@@ -169,19 +181,19 @@ Proof.
     destruct terms as [|p terms]; [exact I|]. cbn [E.nth_term nth_error bind].
     change (seq_get [E.r_s rp; E.r_p rp; E.r_o rp; E.r_g rp] 1) with (@Val (option term) (E.r_p rp)). cbv beta iota.
     rewrite differs_is.
-    use_slot 1 (E.r_p rp) p stmt g m HR; cbn [bind]; try exact I.
+    use_slot 1 (E.r_p rp) p stmt g m HR ltac:(bld n (@None wterm) (@None wterm)); cbn [bind]; try exact I.
     + change (seq_set [E.r_s rp; E.r_p rp; E.r_o rp; E.r_g rp] 1 (Some p)) with (@Val (list (option term)) [E.r_s rp; Some p; E.r_o rp; E.r_g rp]).
       cbv beta iota. destruct terms as [|o terms]; [exact I|]. cbn [E.nth_term nth_error bind].
       change (seq_get [E.r_s rp; Some p; E.r_o rp; E.r_g rp] 2) with (@Val (option term) (E.r_o rp)). cbv beta iota.
       rewrite differs_is.
-      use_slot 2 (E.r_o rp) o (put_opt 1 w stmt) g' m' HR'; cbn [bind]; try exact I.
+      use_slot 2 (E.r_o rp) o (put_opt 1 w stmt) g' m' HR' ltac:(bld n (@None wterm) w); cbn [bind]; try exact I.
       * change (seq_set [E.r_s rp; Some p; E.r_o rp; E.r_g rp] 2 (Some o)) with (@Val (list (option term)) [E.r_s rp; Some p; Some o; E.r_g rp]).
         cbv iota. split; [rows_eq|]. split; [reflexivity|]. split; [assumption|]. split; reflexivity.
       * split; [rows_eq|]. split; [reflexivity|]. split; [assumption|]. split; reflexivity.
     + destruct terms as [|o terms]; [exact I|]. cbn [E.nth_term nth_error bind].
       change (seq_get [E.r_s rp; E.r_p rp; E.r_o rp; E.r_g rp] 2) with (@Val (option term) (E.r_o rp)). cbv beta iota.
       rewrite differs_is.
-      use_slot 2 (E.r_o rp) o stmt g m HR; cbn [bind]; try exact I.
+      use_slot 2 (E.r_o rp) o stmt g m HR ltac:(bld n (@None wterm) (@None wterm)); cbn [bind]; try exact I.
       * change (seq_set [E.r_s rp; E.r_p rp; E.r_o rp; E.r_g rp] 2 (Some o)) with (@Val (list (option term)) [E.r_s rp; E.r_p rp; Some o; E.r_g rp]).
         cbv iota. split; [rows_eq|]. split; [reflexivity|]. split; [assumption|]. split; reflexivity.
       * split; [reflexivity|]. split; [reflexivity|]. split; [assumption|]. split; reflexivity.
@@ -200,7 +212,7 @@ Proof.
   intros HR. unfold encode_triple.
   pose proof (source_start_statement_is_model g m HR) as H0.
   destruct (TermEncoder_start_statement SN g) as [[u|e] g0]; [|contradiction].
-  pose proof (tie_encode_spo terms rp (PMsg "RdfTriple" []) g0 (E.start_statement m) H0) as H.
+  pose proof (tie_encode_spo terms rp "RdfTriple" g0 (E.start_statement m) ltac:(left; reflexivity) H0) as H. cbv zeta in H.
   assert (Hm : E.encode_triple ig terms m rp =
                do x <- spo_result terms rp (E.start_statement m);
                let '(t3, rp', rows, ws, wp, wo) := x in Ok (t3, rp', rows ++ [RTriple ws wp wo])).
@@ -219,7 +231,7 @@ Proof.
   split; [rewrite map_app; reflexivity|]. split; [exact HR'|]. split; reflexivity.
 Qed.
 
-Lemma gslot_step (prev : option term) (tm : term) (stmt : pbval str) g m : Rt g m ->
+Lemma gslot_step (prev : option term) (tm : term) (stmt : pbval str) g m : Rt g m -> building 3 stmt ->
   match E.encode_gslot ig prev tm m with
   | Ok (m', mrows, w, prev') =>
       if E.differs prev tm
@@ -228,9 +240,9 @@ Lemma gslot_step (prev : option term) (tm : term) (stmt : pbval str) g m : Rt g 
   | Err _ => E.differs prev tm = true /\ exists e g' s', enc_graph tm stmt g = (Exn e, g', s')
   end.
 Proof.
-  intros HR. unfold E.encode_gslot.
+  intros HR Hb. unfold E.encode_gslot.
   destruct (E.differs prev tm) eqn:Ed.
-  - pose proof (H_graph tm stmt g m HR) as H.
+  - pose proof (H_graph tm stmt g m HR Hb) as H.
     destruct (enc_graph tm stmt g) as [[[rows|e] g'] stmt'];
       destruct (E.encode_graph_term ig tm m) as [[[m' mrows] w]|e']; try contradiction; cbn [bind].
     + destruct H as (-> & HR' & ->). exists g', (map rmsg mrows).
@@ -250,7 +262,7 @@ Proof.
   intros HR. unfold encode_quad.
   pose proof (source_start_statement_is_model g m HR) as H0.
   destruct (TermEncoder_start_statement SN g) as [[u|e] g0]; [|contradiction].
-  pose proof (tie_encode_spo terms rp (PMsg "RdfQuad" []) g0 (E.start_statement m) H0) as H.
+  pose proof (tie_encode_spo terms rp "RdfQuad" g0 (E.start_statement m) ltac:(right; left; reflexivity) H0) as H. cbv zeta in H.
   assert (Hm : E.encode_quad ig terms m rp =
                do x <- spo_result terms rp (E.start_statement m);
                let '(t3, rp3, rows, ws, wp, wo) := x in
@@ -279,7 +291,8 @@ Proof.
   destruct Hn as [Hn ->]. rewrite Hn. cbn [bind].
   change (seq_get (rlist rp') 3) with (@Val (option term) (E.r_g rp')). cbv beta iota.
   rewrite differs_is, Hg.
-  pose proof (gslot_step (E.r_g rp) gt (put_opt 2 wo (put_opt 1 wp (put_opt 0 ws (PMsg "RdfQuad" [])))) g' m' HR') as Hs.
+  pose proof (gslot_step (E.r_g rp) gt (put_opt 2 wo (put_opt 1 wp (put_opt 0 ws (PMsg "RdfQuad" [])))) g' m' HR'
+                ltac:(exists "RdfQuad"%string, ws, wp, wo; split; [right; left; reflexivity | reflexivity])) as Hs.
   destruct (E.encode_gslot ig (E.r_g rp) gt m') as [[[[m4 r4] wg] pg]|e4].
   - destruct (E.differs (E.r_g rp) gt) eqn:Ed.
     + destruct Hs as (g4 & rows4 & Hcall & -> & HR4 & ->). norm. rewrite Hcall. cbn [bind].
